@@ -75,7 +75,7 @@ RECURSIVE StrOf(_), PiecesStr(_)
 PiecesStr(ps) == IF ps = <<>> THEN <<>> ELSE
                  (IF Head(ps).k = "w" THEN (IF Head(ps).n > 0 THEN EscStr(StrOf(Head(ps).l[1])) ELSE StrOf(Head(ps).l[1])) ELSE StrOf(Head(ps)))
                  \o PiecesStr(Tail(ps))
-StrOf(v) == CASE v.k = "str" -> v.s
+StrOf(v) == CASE v.k \in {"str", "stringer"} -> v.s
               [] v.k = "int" -> IntStr(v.n)
               [] v.k = "bool" -> IF v.n = 1 THEN <<"T","r","u","e">> ELSE <<"F","a","l","s","e">>
               [] v.k = "nil" -> <<>>
@@ -88,7 +88,7 @@ StrOf(v) == CASE v.k = "str" -> v.s
 Truthy(v) == CASE v.k = "nil" -> FALSE
                [] v.k = "bool" -> v.n = 1
                [] v.k = "int" -> v.n # 0
-               [] v.k = "str" -> v.s # <<>>
+               [] v.k \in {"str", "stringer"} -> v.s # <<>>
                [] v.k \in {"list", "map"} -> v.l # <<>>
                [] v.k = "markup" -> v.l # <<>>
                [] OTHER -> TRUE
@@ -202,6 +202,10 @@ EvalPath(v, path, i) ==
   IF i > Len(path) THEN v
   ELSE LET p == path[i] IN
        LET nv == CASE v.k = "loop" -> LoopField(v, p)
+                   [] v.k = "list" -> LET idx == CASE p = "0" -> 1 [] p = "1" -> 2 [] p = "2" -> 3 [] OTHER -> 0 IN
+                                      IF idx >= 1 /\ idx <= Len(v.l) THEN v.l[idx] ELSE Nil
+                   [] v.k = "struct" -> LET hits == {j \in 1..Len(v.l) : v.l[j].l[1] = S(<<p>>)} IN
+                                        IF hits = {} THEN Nil ELSE v.l[CHOOSE j \in hits : TRUE].l[2]
                    [] v.k = "map" -> LET hits == {j \in 1..Len(v.l) : v.l[j].l[1] = S(<<p>>)} IN
                                      IF hits = {} THEN Nil ELSE v.l[CHOOSE j \in hits : TRUE].l[2]
                    [] OTHER -> Nil
@@ -270,7 +274,8 @@ EvalChain(chain, i, r, st) ==
 
 \* writing a value: escaped iff autoescape is on, the expression has no |safe, the value is not marked safe and is a string
 WriteVal(st, e, r) ==
-  LET esc == st.auto /\ ~HasSafe(e) /\ ~r.safe /\ r.v.k \in {"str", "ap"} IN
+  \* (a fmt.Stringer prints arbitrary text of the caller's: it is escaped like a string)
+  LET esc == st.auto /\ ~HasSafe(e) /\ ~r.safe /\ r.v.k \in {"str", "ap", "stringer"} IN
   Emit(Ev(st, <<"Write", st.auto, HasSafe(e), r.safe>>), W(r.v, IF esc THEN 1 ELSE 0))
 
 CallMacro(f, args, st, name) ==
@@ -363,7 +368,7 @@ Exec(n, st) ==
          ELSE LET st1 == [r.st EXCEPT !.cyc = SetK(@, st.path, i + 1)] IN
               LET st2 == IF n.as # "" THEN Bind(st1, n.as, r.v) ELSE st1 IN
               \* cycle prints like a variable would: escaped under autoescape
-              IF n.silent THEN st2 ELSE Emit(st2, W(r.v, IF st2.auto /\ r.v.k \in {"str", "ap"} THEN 1 ELSE 0))
+              IF n.silent THEN st2 ELSE Emit(st2, W(r.v, IF st2.auto /\ ~HasSafe(n.args[(i % Len(n.args)) + 1]) /\ ~r.safe /\ r.v.k \in {"str", "ap", "stringer"} THEN 1 ELSE 0))
     [] n.t = "ifchanged" ->
          LET last == GetK(st.chg, st.path, [has |-> FALSE, v |-> <<>>]) IN
          IF n.args = <<>> THEN
@@ -443,7 +448,7 @@ ScopesBalanced(st) == Len(st.env) = 1
 DepthBalanced(st) == st.depth = 0
 \* C02 (on the model): no written piece carries an unescaped context marker unless the program opted out
 RECURSIVE RawMarks(_)
-RawMarks(v) == CASE v.k = "str" -> {i \in 1..Len(v.s) : IsMark(v.s[i])} # {}
+RawMarks(v) == CASE v.k \in {"str", "stringer"} -> {i \in 1..Len(v.s) : IsMark(v.s[i])} # {}
                  [] v.k = "w" -> v.n = 0 /\ RawMarks(v.l[1])
                  [] v.k = "markup" -> \E i \in 1..Len(v.l) : RawMarks(v.l[i])
                  [] v.k = "ap" -> RawMarks(v.l[1]) \/ RawMarks(v.l[2])
